@@ -19,7 +19,7 @@ func writeWeights(extra map[string]int) map[string]int {
 		"insertOne": 10, "insertMany": 6, "updateOne": 6, "updateMany": 8, "updateByID": 2, "replaceOne": 5,
 		"deleteOne": 3, "deleteMany": 2, "findOneAndDelete": 2, "findOneAndReplace": 2, "findOneAndUpdate": 3,
 		"bulkWrite": 6, "createIndex": 5, "createIndexes": 1, "dropIndex": 1, "dropIndexKey": 1, "dropIndexes": 1,
-		"createColl": 1, "dropColl": 1, "dropDB": 1, "find": 3, "findOne": 1, "count": 1, "distinct": 1, "listIndexes": 1,
+		"createColl": 1, "dropColl": 1, "dropDB": 1, "find": 3, "findOne": 1, "count": 1, "distinct": 1, "listIndexes": 1, "listCollsFull": 1, "listDBsFull": 1,
 	}
 	for k, v := range extra {
 		w[k] = v
